@@ -125,6 +125,22 @@ pub fn block(name: &str, c: &AlphaCtx, out: &mut Vec<Op>) {
                 }
             }
         }
+        // removals of old-table elements the cursor has not reached yet (deep resize states)
+        "rmold" => {
+            let cl = &c.classes;
+            let mut olds: Vec<u32> = vec![];
+            for k in [cl.old_next, cl.old_same, cl.old_beyond, cl.old_last].into_iter().flatten() {
+                if !olds.contains(&k) {
+                    olds.push(k);
+                }
+            }
+            for &k in &olds {
+                out.push(Op::key(OpK::Remove, k));
+                out.push(Op::new(OpK::EntryChain, k, chain::encode(&[O_REPLACE_WITH_NONE])));
+                out.push(Op::new(OpK::Retain, k, 7));
+                out.push(Op::new(OpK::DrainFilter, k, iter_arg(6, MODE_CONSUME, 0)));
+            }
+        }
         "bulk" => {
             out.push(Op::k(OpK::IterMutWrite));
             out.push(Op::k(OpK::ValuesMutWrite));
